@@ -628,7 +628,19 @@ func (l *Linter) check(
 		}
 	}
 
-	all = l.filterErrors(all, cfg.PathConfigs(path))
+	// Path patterns in the config file are relative to the root of the project while `path` is relative to
+	// the current working directory
+	cfgPath := path
+	if project != nil {
+		abs := path
+		if !filepath.IsAbs(abs) {
+			abs = filepath.Join(l.cwd, abs)
+		}
+		if r, err := filepath.Rel(project.RootDir(), abs); err == nil {
+			cfgPath = r
+		}
+	}
+	all = l.filterErrors(all, cfg.PathConfigs(cfgPath))
 
 	for _, err := range all {
 		err.Filepath = path // Populate filename in the error
